@@ -368,7 +368,7 @@ LAT_CONFIGS = {
             ('line5-allworlds', q(V_TOPO='line', V_N=5, V_MAXD=2, V_LVS=1, V_BIAS='p', V_MAXT=2, V_MAXCALLS=2, V_WORLDS='all')),
             ('ring6-few', q(V_TOPO='ring', V_N=6, V_MAXD=1, V_LVS=1, V_BIAS='0', V_MAXT=3, V_MAXCALLS=2, V_WORLDS='few', V_PROBLEMS='one')),
             ('grid3x2', q(V_TOPO='grid', V_N=6, V_W=3, V_MAXD=2, V_LVS=1, V_BIAS='0', V_MAXT=2, V_MAXCALLS=2, V_WORLDS='few', V_PROBLEMS='one')),
-            ('line5-api', q(V_TOPO='line', V_N=5, V_MAXD=2, V_LVS=1, V_BIAS='1', V_MAXT=1, V_MAXCALLS=4, V_WORLDS='free', V_PROBLEMS='one')),
+            ('line5-api', q(V_TOPO='line', V_N=5, V_MAXD=2, V_LVS=1, V_BIAS='1', V_MAXT=1, V_MAXCALLS=4, V_WORLDS='free')),
         ],
         'thorough': [
             ('line7-allworlds', q(V_TOPO='line', V_N=7, V_MAXD=2, V_LVS=1, V_BIAS='p', V_MAXT=3, V_MAXCALLS=2, V_WORLDS='all', V_PROBLEMS='one')),
@@ -415,7 +415,7 @@ WITNESSES = {
              ('non-convex bounds', 'MC_RRTConnect', q(**{**REG, 'V_REGION_HI': 5}), ['W_AlwaysInRegion'], ['W_AlwaysInRegion'])],
     'prm': [('RestoreRng=FALSE (as pinned)', 'MC_PRM', q(V_RESTORE_RNG=0, V_WORLDS='free', V_PROBLEMS='one', V_MAXCALLS=4, V_BUILD=0), ['C07_Provenance'], None),
             ('successful query reachable', 'MC_PRM', q(V_WORLDS='free', V_PROBLEMS='one', V_MAXCALLS=3, V_BUILD=2), ['W_NoOk'], ['W_NoOk']),
-            ('multi-hop path reachable', 'MC_PRM', q(V_WORLDS='free', V_PROBLEMS='one', V_MAXCALLS=3, V_BUILD=2, V_RAD2=3), ['W_NoLongChain'], ['W_NoLongChain'])],
+            ('multi-hop path reachable', 'MC_PRM', q(V_WORLDS='free', V_PROBLEMS='one', V_MAXCALLS=3, V_BUILD=2, V_RAD2=5), ['W_NoLongChain'], ['W_NoLongChain'])],
 }
 
 
@@ -897,6 +897,12 @@ def finding_matches(f, pid, v):
         return False
     if 'space_re' in f and not re.fullmatch(f['space_re'], v.get('space') or ''):
         return False
+    if 'fault_re' in f:
+        # the finding is tied to the injected fault that provokes it: the same panic message in a run
+        # WITHOUT that fault is a different defect and is reported
+        fault = ((v.get('input') or {}).get('fault') or {}).get('f', 'none')
+        if not re.fullmatch(f['fault_re'], fault):
+            return False
     return True
 
 
